@@ -234,6 +234,35 @@ class SymNP:
     def sqrt(self, x, dtype=None, **kw):
         return self._unary(x, sym_sqrt, lambda a: sym_sqrt(a) if isinstance(a, (int, float, Fraction)) else _np.sqrt(a), sym_sqrt)
 
+    def isclose(self, a, b, rtol=1e-05, atol=1e-08, equal_nan=False):
+        """|a - b| <= atol + rtol |b|, exact-real on symbolic / exact-rational operands"""
+        if not (A.any_symbolic(a) or A.any_symbolic(b) or any(isinstance(v, Fraction) or (isinstance(v, _np.ndarray) and v.dtype == object) for v in (a, b))):
+            return _np.isclose(a, b, rtol=rtol, atol=atol, equal_nan=equal_nan)
+        ra, ta = Fraction(rtol).limit_denominator(10 ** 12), Fraction(atol).limit_denominator(10 ** 12)
+
+        def one(x, y):
+            x, y = _coerce(x), _coerce(y)
+            return abs(x - y) <= ta + ra * abs(y)
+
+        if isinstance(a, _np.ndarray) or isinstance(b, _np.ndarray) or isinstance(a, (list, tuple)) or isinstance(b, (list, tuple)):
+            aa, bb = _np.broadcast_arrays(A._obj(A.to_symarray(a)), A._obj(A.to_symarray(b)))
+            out = _np.empty(aa.shape, dtype=object)
+            for k in _np.ndindex(aa.shape):
+                out[k] = one(aa[k], bb[k])
+            return out.view(A.SymArray)
+        return one(a, b)
+
+    def allclose(self, a, b, rtol=1e-05, atol=1e-08, equal_nan=False):
+        r = self.isclose(a, b, rtol=rtol, atol=atol, equal_nan=equal_nan)
+        if isinstance(r, _np.ndarray) and r.dtype == object:
+            acc = True
+            for v in r.reshape(-1):
+                acc = (acc & v) if not isinstance(acc, bool) else (v if acc else False)
+            return acc
+        if isinstance(r, _np.ndarray):
+            return bool(r.all())
+        return r
+
     def exp(self, x, dtype=None, **kw):
         return self._unary(x, sym_exp, _np.exp)
 
